@@ -8,48 +8,211 @@ from scipy import special as sps
 from vlib.core import HypClause, Violation
 from vlib import util as U
 
-RULE = ("Hypothesis draws the family, the order(s) (0, 1, 2, 3 forced, otherwise uniform up to 40 quick / 120 thorough), "
-        "the shape parameters (tabulated pairs, the Chebyshev half-integers, alpha+beta in {0,-1}, arbitrary reals in "
-        "(-1,6]), the shape of the coordinate argument (Python float, 0-D, 1-D, 2-D, 3-D, optionally containing the end "
-        "points of the domain), coefficient-vector lengths 1..12 with a drawn zero pattern (dense / sparse / single term), "
-        "Clenshaw derivative orders j=1..4 and, for the surfaces, curvature / conic constant / off-axis shift constructed "
-        "inside the real domain of the square roots; coordinate and coefficient *values* are expanded from a drawn "
-        "integer.  Oracle: complex-step derivative Im f(x+ih)/h, h=1e-30, of the *value* routine (exact to rounding, no "
+RULE = ("Hypothesis draws the family, the order(s) (0, 1, 2, 3 forced, otherwise uniform up to 40 quick / 120 thorough, plus the high "
+        "orders 150..500 - 150 for Hermite, which overflows beyond - where the unchanged recurrences were measured to agree with the "
+        "oracle to 3e-12), the shape parameters (tabulated pairs, the Chebyshev half-integers, alpha+beta in {0,-1} and next to those "
+        "lines, arbitrary reals in (-1,6]), the shape of the coordinate argument (Python float, numpy scalar, 0-D, 1-D, 2-D, 3-D, "
+        "optionally containing the end points of the domain), coefficient-vector lengths 1..12 with a drawn zero pattern (dense / "
+        "sparse / single term; long dense / sparse vectors to 200 terms for the Jacobi sums), Clenshaw derivative orders j=1..4 and, "
+        "for the surfaces, curvature / conic constant (incl. k next to -1 and 0) / off-axis shift constructed inside the real domain "
+        "of the square roots, up to (1+k) c^2 rho^2 = 0.999999; coordinate and coefficient *values* are expanded from a drawn "
+        "integer.  Every case also draws HOW the arguments are presented (sub-dict v): dtype of the evaluation points (float64, "
+        "float32, complex128 with zero imaginary part, and - for the routines that the unchanged code accepts them in: the "
+        "single-order evaluators, zernike_nm_der with a Jacobi order >= 1, the conic helpers, Python-int scalars for the Clenshaw / "
+        "sag-slope routines - integer-valued points as int64/int32/int16/int8 arrays, numpy integer scalars and Python ints), memory "
+        "layout of N-D arrays (C, Fortran, transposed view, strided view), coefficient / order containers (list, tuple, ndarray, "
+        "integer-valued), a float32 evaluation of the same routine immediately before the checked one, and a re-use check (the kept "
+        "result must be unchanged after the same routine is called with another order / other coefficients, and after the caller "
+        "overwrites its result in place the same call must still be right).  Every array / list argument must come back unchanged.  "
+        "Other entry points to the same result are drawn too: phi / rho^2 handed to the conic helpers by the caller, x by keyword for the "
+        "Jacobi Clenshaw sum, Surface.sphere / .conic / .off_axis_conic FFp; rarely the single-order derivative is evaluated on more than "
+        "2**16 points.  "
+        "Oracle: complex-step derivative Im f(x+ih)/h, h=1e-30, of the *value* routine (exact to rounding, no "
         "step-size trade-off) for every first derivative (w.r.t. x, r, t, u, rho); scipy.special explicit sums "
-        "sum s_n poch(n+a+b+1,j)/2^j P_(n-j)^(a+j,b+j) for higher Jacobi Clenshaw derivatives; the Cauchy integral "
+        "sum s_n poch(n+a+b+1,j)/2^j P_(n-j)^(a+j,b+j) for higher Jacobi Clenshaw derivatives (complex step of sum s_n P_n and of "
+        "sum s_n P_n' for the long vectors); the Cauchy integral "
         "(FFT over a circle in the complex plane, exact for polynomials) of the value routines Qbfs / Q2d for higher "
         "Qbfs / Q2d Clenshaw derivatives; the explicit mode sum sum c Q(n,m,u,t) and the closed conic form for the "
         "sag-and-slope evaluators (2D-Q coefficient sets: m=0 vector possibly empty, per azimuthal order both families, "
-        "none, or only the cosine / only the sine family, as Q2d_nm_c_to_a_b packs them).  Failure buckets name the routine "
+        "none, or only the cosine / only the sine family, as Q2d_nm_c_to_a_b packs them, optionally preceded by a run of empty orders).  "
+        "Failure buckets name the routine "
         "and the failing input class (n=0 / n>=1, len1, j>=2, j>=len, k!=0, x.ndim!=1 for the Chebyshev sequence forms, "
-        "one-family-empty for 2D-Q).  Non-trivial = order in {0,1} or order >= 6 (beyond the repository's tests) or "
+        "one-family-empty for 2D-Q, :argument-modified, :result-overwritten, :aliased-state).  Non-trivial = order in {0,1} or "
+        "order >= 6 (beyond the repository's tests) or "
         "non-tabulated shape parameter or j >= 2 or a length-1 / sparse vector or an azimuthal derivative or an N-D / "
-        "scalar coordinate argument or a non-zero conic constant / shift.")
+        "scalar coordinate argument or a non-zero conic constant / shift or a non-default presentation of the arguments.")
 ASSUMPTIONS = [
     "prysm's polynomial and sag *value* routines are compositions of analytic elementary operations, so evaluating them "
     "at x+1e-30i gives f'(x) in the imaginary part to rounding error (Squire & Trapp 1998)",
     "scipy.special.eval_jacobi / poch are correct for degree <= 40 and parameters in (-1, 10]",
-    "numpy float64 / complex128 arithmetic (IEEE-754)",
+    "numpy float64 / complex128 arithmetic (IEEE-754); float32 input is only required to give the float64 answer to "
+    "3e-4 (n + 10) of the largest derivative, n <= 150 (observed <= 3e-6 (n + 10) on the unchanged code)",
 ]
 
 H = 1e-30
 NMAX = {'quick': 40, 'thorough': 120}
 RT = 1e-9      # relative tolerance (to the largest |derivative| over the drawn points) for first derivatives
+HIGH_ORDERS = [150, 171, 200, 256, 300, 400, 500]    # unchanged code: <= 3e-12 of the largest derivative up to n = 500 (all families)
+HERMITE_MAX = 150                                      # He_n / H_n on [-4, 4] overflow float64 beyond n ~ 170
+
+
+# ---- how the arguments are presented to the code under test ------------------------------------------------------------
+# One sub-dict `v` per case (absent in replays recorded before it existed -> plain float64 / C order / lists / single call).
+INT_TYPES = ['int64', 'int32', 'int16', 'int8']
+DEFAULT_V = {'xkind': 'f64', 'itype': 'int64', 'layout': 'C', 'layout2': 'C', 'pre32': False, 'again': False, 'cs_as': 'list', 'ns_as': 'list'}
+CONTAINERS = ['list', 'list', 'tuple', 'array']
+
+
+def variants(kinds=('f64', 'f32', 'int', 'complex')):
+    pool = ['f64'] * 4 + ['f32'] * 2 * ('f32' in kinds) + ['int'] * 2 * ('int' in kinds) + ['complex'] * ('complex' in kinds)
+    return st.fixed_dictionaries({
+        'xkind': st.sampled_from(pool), 'itype': st.sampled_from(INT_TYPES), 'layout': U.layouts, 'layout2': U.layouts,
+        'pre32': st.sampled_from([False, False, True]), 'again': st.sampled_from([False, False, True]),
+        'cs_as': st.sampled_from(CONTAINERS + ['intlist', 'intarray']), 'ns_as': st.sampled_from(CONTAINERS)})
+
+
+def var_of(case, kinds=('f64', 'f32', 'int', 'complex')):
+    v = dict(DEFAULT_V)
+    v.update(case.get('v') or {})
+    if v['xkind'] not in kinds:
+        v['xkind'] = 'f64'
+    return v
+
+
+def var_labels(ctx, v, shape):
+    """histogram of the presentation classes actually exercised"""
+    nd = 0 if isinstance(shape, str) else len(shape)
+    ctx.label('x:' + v['xkind'] + (':' + v['itype'] if v['xkind'] == 'int' and not isinstance(shape, str) else ''))
+    if nd >= 1:
+        ctx.label('layout:' + v['layout'])
+    if v['pre32']:
+        ctx.label('after-float32-call')
+    if v['again']:
+        ctx.label('re-use-check')
+    return v['xkind'] != 'f64' or (nd >= 1 and v['layout'] not in ('C',)) or v['pre32'] or v['again']
+
+
+def present(x, shape, v, layout=None, kind=None):
+    """the float64 points x (ndarray of the drawn shape, or a Python float for the scalar shapes) as they are handed to prysm"""
+    kind = kind or v['xkind']
+    if shape == 'pyfloat':
+        return int(x) if kind == 'int' else complex(x, 0.0) if kind == 'complex' else float(x)
+    if shape == 'npscalar':
+        return {'int': getattr(np, v['itype']), 'f32': np.float32, 'complex': np.complex128, 'f64': np.float64}[kind](x)
+    dt = {'f64': np.float64, 'f32': np.float32, 'int': getattr(np, v['itype']), 'complex': np.complex128}[kind]
+    a = np.asarray(x).astype(dt)
+    return U.relayout(a, layout or v['layout']) if a.ndim else a
+
+
+def as32(x):
+    """the same argument in single precision (for the evaluation that precedes the checked one)"""
+    if isinstance(x, np.ndarray):
+        return x.astype(np.float32) if x.dtype.kind in 'fiu' else x.astype(np.complex64)
+    if isinstance(x, (complex, np.complexfloating)):
+        return np.complex64(x)
+    return np.float32(x)
+
+
+def contain(values, how):
+    """a coefficient vector / order list in the drawn container"""
+    if how in ('tuple',):
+        return tuple(values)
+    if how in ('array', 'intarray'):
+        return np.array(values)
+    return list(values)
+
+
+def rtol_of(v, n, rt):
+    """tolerance relative to the largest reference value: float64 tolerance, or the single-precision one for float32 points"""
+    return max(rt, 3e-4 * (n + 10)) if v['xkind'] == 'f32' else rt
+
+
+def snapshot(a):
+    if isinstance(a, np.ndarray):
+        return a.copy()
+    if isinstance(a, (list, tuple)):
+        return type(a)(snapshot(e) for e in a)
+    if isinstance(a, dict):
+        return {k: snapshot(e) for k, e in a.items()}
+    return a
+
+
+def same(a, b):
+    if isinstance(a, np.ndarray):
+        return isinstance(b, np.ndarray) and a.dtype == b.dtype and a.shape == b.shape and bool(np.array_equal(a, b, equal_nan=a.dtype.kind in 'fc'))
+    if isinstance(a, (list, tuple)):
+        return type(a) is type(b) and len(a) == len(b) and all(same(x, y) for x, y in zip(a, b))
+    if isinstance(a, dict):
+        return isinstance(b, dict) and list(a) == list(b) and all(same(a[k], b[k]) for k in a)
+    if isinstance(a, float) and a != a:
+        return isinstance(b, float) and b != b
+    return type(a) is type(b) and a == b
+
+
+def _arrays(o):
+    if isinstance(o, np.ndarray):
+        yield o
+    elif isinstance(o, (list, tuple)):
+        for e in o:
+            yield from _arrays(e)
+    elif isinstance(o, dict):
+        for e in o.values():
+            yield from _arrays(e)
+
+
+def scribble(result, args):
+    """overwrite, in place, every array of `result` that is the caller's own (writeable, no memory shared with an argument);
+    returns the number of arrays overwritten"""
+    ins = list(_arrays(list(args)))
+    n = 0
+    for r in _arrays(result):
+        if r.flags.writeable and r.size and not any(np.shares_memory(r, a) for a in ins):
+            r[...] = 7 if r.dtype.kind in 'iu' else 1.2345e11
+            n += 1
+    return n
+
+
+def fname(fn):
+    return getattr(fn, '__qualname__', getattr(fn, '__name__', str(fn)))
+
+
+def reuse_check(ctx, v, bucket, first, args, other, redo, verify):
+    """blind-spot class 'results must not alias library state or each other':
+    (a) the kept result is bit-for-bit unchanged after `other()` (the same routine with another order / other coefficients),
+    (b) after the caller overwrites its own result arrays in place, `redo()` (the checked call again) is still right."""
+    if not v['again']:
+        return
+    keep = snapshot(first)
+    other()
+    ctx.require(same(first, keep), bucket + ':result-overwritten', 'the result kept from the first call changed when the routine was called again with other arguments')
+    if scribble(first, args):
+        verify(redo(), bucket + ':aliased-state')
 
 
 def call(ctx, cls, fn, *a, **k):
-    """ctx.call, with the failing input class appended to the bucket of a crash"""
+    """ctx.call, with the failing input class appended to the bucket of a crash; every array / list / tuple argument must come
+    back exactly as it was handed in"""
+    before = snapshot((a, k))
     try:
-        return ctx.call(fn, *a, **k)
+        out = ctx.call(fn, *a, **k)
     except Violation as v:
         if v.bucket.startswith('raise:') and cls:
             raise Violation(v.bucket + ':' + cls, v.msg) from v
         raise
+    if not same((a, k), before):
+        bad = [i for i, (x, y) in enumerate(zip(a, before[0])) if not same(x, y)] + [n for n in k if not same(k[n], before[1][n])]
+        raise Violation('%s:argument-modified' % fname(fn), '%s changed its argument(s) %s in place' % (fname(fn), bad))
+    return out
 
 
 # ---- generators ----------------------------------------------------------------------------------
 def orders(tier):
     return st.one_of(st.sampled_from([0, 1, 2, 3]), st.integers(0, NMAX[tier]), st.integers(0, 12))
+
+
+def orders_high(tier, cap=500):
+    """orders(), plus the far end of the range in which the unchanged recurrences are still accurate"""
+    return st.one_of(orders(tier), orders(tier), orders(tier), st.sampled_from([n for n in HIGH_ORDERS if n <= cap] or [cap]))
 
 
 _ab_float = U.nice_float(-0.99, 6.0)
@@ -69,6 +232,8 @@ def ab_pairs():
         # alpha + beta (+1) after an exact == test cancel catastrophically here
         st.tuples(U.nice_float(-0.95, 0.95), st.sampled_from([5.5e-17, -1.1e-16, 1e-15, 1e-12, -1e-9, 1e-6])).map(lambda t: [t[0], -t[0] + t[1]]),
         st.tuples(U.nice_float(-0.95, -0.05), st.sampled_from([1.1e-16, -2.2e-16, 1e-12, -1e-9, 1e-6])).map(lambda t: [t[0], -1.0 - t[0] + t[1]]),
+        # the far ends of the range
+        st.sampled_from([[-0.99, -0.99], [6.0, 6.0], [-0.99, 6.0], [6.0, -0.99], [-0.99, 0.0], [0, -0.99]]),
     )
 
 
@@ -86,34 +251,61 @@ def ab_class(a, b):
     return 'ab:general'
 
 
+SCALAR_SHAPES = ('pyfloat', 'npscalar')     # Python scalar / numpy scalar (np.float64, np.float32, np.int64 ...); [] is the 0-D array
+
+
 def point_shapes(nd_max=5):
     s = st.integers(1, nd_max)
-    return st.one_of(st.just('pyfloat'), st.just([]), st.integers(1, 12).map(lambda k: [k]),
-                     st.tuples(s, s).map(list), st.tuples(st.integers(1, 3), s, st.integers(1, 3)).map(list))
+    return st.one_of(st.just('pyfloat'), st.just('npscalar'), st.just([]), st.integers(1, 12).map(lambda k: [k]),
+                     st.tuples(s, s).map(list), st.tuples(s, s).map(list), st.tuples(st.integers(1, 3), s, st.integers(1, 3)).map(list))
+
+
+BIG_SHAPES = [[65537], [70001], [257, 263], [3, 21851, 1]]     # > 2**16 samples, prime / odd axis lengths, size-1 axes
+
+
+def with_big_shapes(strategy, order_key='n', limit=60):
+    """point_shapes() plus, rarely, a large array (only together with a moderate order: the cost is order * size)"""
+    def fix(t):
+        case, big = t
+        if big is not None and case[order_key] <= limit:
+            case = dict(case)
+            case['shape'] = big
+        return case
+    return st.tuples(strategy, st.one_of(st.none(), st.none(), st.none(), st.none(), st.none(), st.none(), st.none(), st.none(), st.none(),
+                                         st.sampled_from(BIG_SHAPES))).map(fix)
 
 
 def array_shapes(nd_max=5):
+    """shapes of things that have .shape and .dtype (the sequence forms need them): numpy scalar, 0-D ... 3-D"""
     s = st.integers(1, nd_max)
-    return st.one_of(st.just([]), st.integers(1, 12).map(lambda k: [k]), st.tuples(s, s).map(list),
+    return st.one_of(st.just('npscalar'), st.just([]), st.integers(1, 12).map(lambda k: [k]), st.tuples(s, s).map(list), st.tuples(s, s).map(list),
                      st.tuples(st.integers(1, 3), s, st.integers(1, 3)).map(list))
 
 
 def shape_label(shape):
-    if shape == 'pyfloat':
-        return 'x:pyfloat'
+    if isinstance(shape, str):
+        return 'x:' + shape
     return 'x:%d-D' % len(shape)
 
 
+def shape_tuple(shape):
+    return () if isinstance(shape, str) else tuple(shape)
+
+
 def size_of(shape):
-    return 1 if shape == 'pyfloat' else int(np.prod(shape, dtype=int)) if len(shape) else 1
+    return 1 if isinstance(shape, str) else int(np.prod(shape, dtype=int)) if len(shape) else 1
 
 
-def make_points(seed, shape, lo, hi, edge, salt=0, edges=None):
-    """(argument handed to prysm, flat base array).  The argument is the first size_of(shape) entries of the base array;
-    the base array has >= 8 points spread over [lo,hi] and defines the scale of the comparison."""
+def make_points(seed, shape, lo, hi, edge, salt=0, edges=None, kind='f64'):
+    """(points as float64 in the drawn shape - a Python float for the scalar shapes -, flat base array).  The points are the first
+    size_of(shape) entries of the base array; the base array has >= 8 points spread over [lo,hi] and defines the scale of the
+    comparison.  kind 'int': integer-valued points of [lo,hi]; kind 'f32': points that are exactly representable in float32."""
     size = size_of(shape)
     r = U.rng_of(seed, salt)
-    base = r.uniform(lo, hi, max(8, size))
+    if kind == 'int':
+        base = r.integers(math.ceil(lo), math.floor(hi) + 1, max(8, size)).astype(float)
+    else:
+        base = r.uniform(lo, hi, max(8, size))
     if edge:
         e = (lo, hi) if edges is None else edges
         base[0] = e[0]
@@ -121,8 +313,10 @@ def make_points(seed, shape, lo, hi, edge, salt=0, edges=None):
             base[size - 1] = e[1]
         else:
             base[0] = e[int(seed) % 2]
+    if kind == 'f32':
+        base = base.astype(np.float32).astype(float)     # hi may be exceeded by half a float32 ulp when it is not representable
     sub = base[:size]
-    if shape == 'pyfloat':
+    if isinstance(shape, str):
         return float(sub[0]), base
     return sub.reshape(shape).copy(), base
 
@@ -137,7 +331,7 @@ def cstep(x):
 def shaped(full, shape):
     size = size_of(shape)
     a = np.asarray(full)[..., :size]
-    if shape == 'pyfloat':
+    if isinstance(shape, str):
         return a.reshape(a.shape[:-1])
     return a.reshape(a.shape[:-1] + tuple(shape))
 
@@ -192,7 +386,7 @@ def fam_params(fam):
     if fam == 'jacobi':
         return ab_pairs()
     if fam == 'laguerre':
-        return st.one_of(st.sampled_from([0, 0.5, 1, 2, -0.5]), U.nice_float(-0.99, 6.0)).map(lambda a: [a])
+        return st.one_of(st.sampled_from([0, 0.5, 1, 2, -0.5, -0.99, 6.0]), U.nice_float(-0.99, 6.0)).map(lambda a: [a])
     return st.just([])
 
 
@@ -200,40 +394,79 @@ def n_class(n):
     return 'n=0' if n == 0 else 'n=1' if n == 1 else 'n=2..5' if n <= 5 else 'n=6..40' if n <= 40 else 'n>40'
 
 
+HERMITES = ('hermite_He', 'hermite_H')
+
+
+def order_cap(fam):
+    return HERMITE_MAX if fam in HERMITES else 500
+
+
+def settle_kind(v, fam, nmax):
+    """the presentation classes that the *unchanged* single-order evaluators accept, per family (measured): float32 Hermite values
+    overflow beyond n ~ 40; integer points make the Hermite recurrences run in integer arithmetic (exact below 2^63: n <= 15 on
+    [-4,4], int64 only) and the Laguerre ones start in it when alpha is an integer (no int8 / int16)."""
+    v = dict(v)
+    if v['xkind'] == 'f32' and nmax > 150:
+        v['xkind'] = 'f64'      # single precision is checked where it still means something: observed <= 3e-6 (n + 10) up to n = 150
+    if fam in HERMITES:
+        if (v['xkind'] == 'f32' and nmax > 40) or (v['xkind'] == 'int' and nmax > 15):
+            v['xkind'] = 'f64'
+        v['itype'] = 'int64'
+    if fam == 'laguerre' and v['itype'] in ('int8', 'int16'):
+        v['itype'] = 'int32'
+    return v
+
+
 def strat_der_scalar(tier):
-    return st.sampled_from(FAMS).flatmap(lambda fam: st.fixed_dictionaries({
-        'fam': st.just(fam), 'n': orders(tier), 'p': fam_params(fam), 'shape': point_shapes(),
-        'edge': st.booleans(), 'seed': U.seeds}))
+    return with_big_shapes(st.sampled_from(FAMS).flatmap(lambda fam: st.fixed_dictionaries({
+        'fam': st.just(fam), 'n': orders_high(tier, order_cap(fam)), 'p': fam_params(fam), 'shape': point_shapes(),
+        'edge': st.booleans(), 'seed': U.seeds, 'v': variants()})))
 
 
 def check_der_scalar(case, ctx):
-    """<family>_der(n, ..., x) == d/dx <family>(n, ..., x) (complex step), same shape as x, for every family."""
+    """<family>_der(n, ..., x) == d/dx <family>(n, ..., x) (complex step), same shape as x, for every family, every presentation of x."""
     fam, n, p, shape = case['fam'], case['n'], case['p'], case['shape']
     val, der, _, npar, (lo, hi) = families()[fam]
-    x, base = make_points(case['seed'], shape, lo, hi, case['edge'])
-    ctx.label(fam, n_class(n), shape_label(shape), 'edge' if case['edge'] else 'interior')
+    v = settle_kind(var_of(case), fam, n)
+    x, base = make_points(case['seed'], shape, lo, hi, case['edge'], kind=v['xkind'])
+    xarg = present(x, shape, v)
+    ctx.label(fam, n_class(n), shape_label(shape), 'edge' if case['edge'] else 'interior', 'size>2^16' if size_of(shape) > 65536 else 'size<=2^16')
     if fam == 'jacobi':
         ctx.label(ab_class(*p))
-    ctx.nt(n <= 1 or n >= 6 or shape == 'pyfloat' or len(shape) != 1 or (fam == 'jacobi' and ab_class(*p) != 'ab:tabulated')
+    nt = var_labels(ctx, v, shape)
+    ctx.nt(nt or n <= 1 or n >= 6 or isinstance(shape, str) or len(shape) != 1 or (fam == 'jacobi' and ab_class(*p) != 'ab:tabulated')
            or fam == 'laguerre')
+    cls = 'n=0' if n == 0 else 'n>=1'
+    if v['pre32']:
+        g32 = call(ctx, cls + ':float32', der, n, *p, as32(xarg))
+        U.check_shape(g32, shape_tuple(shape), '%s_der:float32' % fam, '%s_der(%d, %s, float32 x)' % (fam, n, p))
     want_full = np.imag(ctx.call(val, n, *p, base + 1j * H)) / H
     want = shaped(want_full, shape)
-    bucket = '%s_der:%s' % (fam, 'n=0' if n == 0 else 'n>=1')
-    got = call(ctx, 'n=0' if n == 0 else 'n>=1', der, n, *p, x)
-    U.check_shape(got, np.shape(want), bucket, '%s_der(%d, %s, x) for x of shape %s' % (fam, n, p, shape))
     scale = float(np.max(np.abs(want_full)))
-    U.check_close(got, want, RT, bucket, '%s_der(n=%d, params=%s) vs complex-step derivative of %s' % (fam, n, p, fam),
-                  atol=RT * scale)
+    rt = rtol_of(v, n, RT)
+    what = '%s_der(n=%d, params=%s, x: %s %s) vs complex-step derivative of %s' % (fam, n, p, v['xkind'], shape_label(shape), fam)
+
+    def verify(got, bucket):
+        U.check_shape(got, np.shape(want), bucket, '%s_der(%d, %s, x) for x of shape %s' % (fam, n, p, shape))
+        U.check_close(got, want, rt, bucket, what, atol=rt * scale)
+    bucket = '%s_der:%s' % (fam, cls)
+    got = call(ctx, cls, der, n, *p, xarg)
+    verify(got, bucket)
+    n2 = n + 1 if n + 1 <= order_cap(fam) and not (v['xkind'] == 'int' and fam in HERMITES and n + 1 > 15) else n - 1
+    reuse_check(ctx, v, bucket, got, (xarg,), lambda: ctx.call(der, n2, *p, xarg), lambda: ctx.call(der, n, *p, xarg), verify)
 
 
 # ---- sequence forms -------------------------------------------------------------------------------
-def order_lists(tier):
+def order_lists(tier, cap=500):
     nmax = NMAX[tier]
     contiguous = st.tuples(st.sampled_from([0, 0, 1, 2, 3]), st.integers(2, 12)).map(lambda t: list(range(t[0], t[0] + t[1])))
     anystart = st.tuples(st.integers(0, nmax - 2), st.integers(2, 8)).map(lambda t: list(range(t[0], min(nmax, t[0] + t[1] - 1) + 1)))
     gapped = st.sets(st.integers(0, nmax), min_size=2, max_size=10).map(sorted)
     single = st.one_of(st.sampled_from([0, 1, 2, 3]), st.integers(0, nmax)).map(lambda n: [n])
-    return st.one_of(contiguous, contiguous, gapped, gapped, anystart, single)
+    # the far end: a few low orders and one or two orders from the top of the accurate range
+    high = st.tuples(st.sets(st.integers(0, 12), max_size=3), st.sets(st.sampled_from([n for n in HIGH_ORDERS if n <= cap] + [cap - 1, cap]), min_size=1, max_size=2)).map(
+        lambda t: sorted(t[0] | t[1]))
+    return st.one_of(contiguous, contiguous, gapped, gapped, anystart, single, high)
 
 
 def ns_class(ns):
@@ -250,8 +483,8 @@ def _strat_der_seq(fams):
             fam, ns = t
             sh = st.one_of(array_shapes(), st.integers(1, 4).map(lambda k: [len(ns), k]), st.just([len(ns)]))
             return st.fixed_dictionaries({'fam': st.just(fam), 'ns': st.just(ns), 'p': fam_params(fam), 'shape': sh,
-                                          'edge': st.booleans(), 'seed': U.seeds})
-        return st.tuples(st.sampled_from(fams), order_lists(tier)).flatmap(build)
+                                          'edge': st.booleans(), 'seed': U.seeds, 'v': variants(('f64', 'f32', 'complex'))})
+        return st.sampled_from(fams).flatmap(lambda fam: st.tuples(st.just(fam), order_lists(tier, order_cap(fam)))).flatmap(build)
     return strat
 
 
@@ -259,35 +492,63 @@ def check_der_seq(case, ctx):
     """<family>_der_seq(ns, ..., x)[k] == d/dx <family>(ns[k], ..., x) (complex step) and shape (len(ns), *x.shape)."""
     fam, ns, p, shape = case['fam'], case['ns'], case['p'], case['shape']
     val, _, dseq, npar, (lo, hi) = families()[fam]
-    x, base = make_points(case['seed'], shape, lo, hi, case['edge'])
-    ctx.label(fam, ns_class(ns), shape_label(shape), 'has-n=0' if ns[0] == 0 else 'no-n=0',
-              'lead-dim==len(ns)' if len(shape) >= 1 and shape[0] == len(ns) else 'lead-dim!=len(ns)')
+    # integer-typed points are not generated here: the unchanged sequence forms allocate their output in the dtype of x
+    v = settle_kind(var_of(case, ('f64', 'f32', 'complex')), fam, ns[-1])
+    x, base = make_points(case['seed'], shape, lo, hi, case['edge'], kind=v['xkind'])
+    xarg = present(x, shape, v)
+    ctx.label(fam, ns_class(ns), shape_label(shape), 'has-n=0' if ns[0] == 0 else 'no-n=0', n_class(ns[-1]), 'ns-as:' + v['ns_as'],
+              'lead-dim==len(ns)' if not isinstance(shape, str) and len(shape) >= 1 and shape[0] == len(ns) else 'lead-dim!=len(ns)')
+    var_labels(ctx, v, shape)
     ctx.nt(True)
     # sequence-lane defect class of the Chebyshev forms (normalisation vector broadcast): every x that is not 1-D
-    cls = ':x.ndim!=1' if fam in CHEBYS and len(shape) != 1 else ''
+    cls = ':x.ndim!=1' if fam in CHEBYS and len(shape_tuple(shape)) != 1 else ''
     name = '%s_der_seq' % fam
-    got = call(ctx, cls[1:] or ('has-n=0' if ns[0] == 0 else 'n>=1'), dseq, list(ns), *p, x)
-    U.check_shape(got, (len(ns),) + tuple(shape), name + cls, '%s(ns=%s, x.shape=%s)' % (name, ns, shape))
-    for k, n in enumerate(ns):
+    ccls = cls[1:] or ('has-n=0' if ns[0] == 0 else 'n>=1')
+    nsarg = contain(ns, v['ns_as'])
+    if v['pre32']:
+        g32 = call(ctx, ccls + ':float32', dseq, nsarg, *p, as32(xarg))
+        U.check_shape(g32, (len(ns),) + shape_tuple(shape), name + ':float32', '%s(ns=%s, float32 x)' % (name, ns))
+    wants = []
+    for n in ns:
         want_full = np.imag(ctx.call(val, n, *p, base + 1j * H)) / H
-        want = shaped(want_full, shape)
-        scale = float(np.max(np.abs(want_full)))
-        bucket = name + (cls or (':n=0' if n == 0 else ':n>=1'))
-        U.check_close(got[k], want, RT, bucket, '%s(ns=%s, params=%s)[%d] (order %d) vs complex-step derivative of %s' % (
-            name, ns, p, k, n, fam), atol=RT * scale)
+        wants.append((shaped(want_full, shape), float(np.max(np.abs(want_full)))))
+
+    def verify(got, suffix):
+        U.check_shape(got, (len(ns),) + shape_tuple(shape), name + (suffix or cls), '%s(ns=%s, x.shape=%s)' % (name, ns, shape))
+        for k, n in enumerate(ns):
+            want, scale = wants[k]
+            rt = rtol_of(v, n, RT)
+            bucket = name + (suffix or cls or (':n=0' if n == 0 else ':n>=1'))
+            U.check_close(got[k], want, rt, bucket, '%s(ns=%s, params=%s, x: %s)[%d] (order %d) vs complex-step derivative of %s' % (
+                name, ns, p, v['xkind'], k, n, fam), atol=rt * scale)
+    got = call(ctx, ccls, dseq, nsarg, *p, xarg)
+    verify(got, '')
+    ns2 = contain([n + 1 if n + 1 <= order_cap(fam) else n for n in ns][:-1] or [ns[0] + 1], v['ns_as'])     # other orders, another length
+    reuse_check(ctx, v, name, got, (xarg, nsarg), lambda: ctx.call(dseq, ns2, *p, xarg), lambda: ctx.call(dseq, nsarg, *p, xarg),
+                lambda g, b: verify(g, b[len(name):]))
 
 
 # ---- Zernike ---------------------------------------------------------------------------------------
-def nm_pairs(nmax):
-    return st.one_of(st.integers(0, nmax), st.integers(0, 8)).flatmap(
-        lambda n: st.integers(0, n).map(lambda k: [n, -n + 2 * k]))
+def nm_pairs(nmax, high=()):
+    """(n, m) of valid parity: n uniform (small n forced), m uniform over -n..n, the extremes m = +-n, 0 / +-1 forced, and the
+    far end of the range of n (unchanged code: <= 1e-13 of the largest derivative up to n = 400)"""
+    n = st.one_of(st.integers(0, nmax), st.integers(0, 8), st.sampled_from(list(high))) if high else st.one_of(st.integers(0, nmax), st.integers(0, 8))
+
+    def ms(n):
+        low = n % 2
+        return st.one_of(st.integers(0, n).map(lambda k: -n + 2 * k), st.integers(0, n).map(lambda k: -n + 2 * k),
+                         st.sampled_from([n, -n, low, -low, n - 2 if n >= 2 else n, -(n - 2) if n >= 2 else -n])).map(lambda m: [n, m])
+    return n.flatmap(ms)
+
+
+ZERNIKE_HIGH = {'quick': [100, 150, 200, 300], 'thorough': [100, 150, 200, 300, 400]}
 
 
 def strat_zernike(tier):
     nmax = {'quick': 40, 'thorough': 80}[tier]
     return st.fixed_dictionaries({
-        'nms': st.lists(nm_pairs(nmax), min_size=1, max_size=5), 'norm': st.booleans(), 'shape': point_shapes(),
-        'rclass': st.sampled_from(['interior', 'interior', 'near0', 'zero', 'one']), 'seed': U.seeds})
+        'nms': st.lists(nm_pairs(nmax, ZERNIKE_HIGH[tier]), min_size=1, max_size=5), 'norm': st.booleans(), 'shape': point_shapes(),
+        'rclass': st.sampled_from(['interior', 'interior', 'near0', 'zero', 'one']), 'seed': U.seeds, 'v': variants(('f64', 'f32', 'int'))})
 
 
 def check_zernike(case, ctx):
@@ -295,76 +556,169 @@ def check_zernike(case, ctx):
     from prysm import polynomials as P
     nms, norm, shape = [list(e) for e in case['nms']], case['norm'], case['shape']
     rcls = case['rclass']
-    r, rbase = make_points(case['seed'], shape, 0.02, 1.0, False, salt=1)
-    t, tbase = make_points(case['seed'], shape, -math.pi, 2 * math.pi, False, salt=2)
-    if rcls != 'interior':
-        v = {'near0': 1e-7, 'zero': 0.0, 'one': 1.0}[rcls]
-        rbase[0] = v
-        if shape == 'pyfloat':
-            r = float(v)
+    v = var_of(case, ('f64', 'f32', 'int'))
+    # integer-typed radii: the unchanged zernike_nm_der accepts a Python int for every (n, m) and an integer array / numpy integer
+    # when the radial Jacobi order (n-|m|)/2 is >= 1 (order 0 multiplies an integer array by a float in place); the sequence form
+    # allocates its output in the dtype of r and is not given integer radii
+    if v['xkind'] == 'int' and shape != 'pyfloat' and any((n - abs(m)) // 2 == 0 for n, m in nms):
+        v['xkind'] = 'f64'
+    if max(n for n, _ in nms) > 100:
+        v['itype'] = 'int64'        # |m| itself must fit the integer type of r (NEP 50: m * r ** (m-1))
+        if v['xkind'] == 'f32':
+            v['xkind'] = 'f64'      # P_j^(0,|m|)(-1) = C(j+|m|, j) leaves the float32 range (inf * 0 at small r)
+    kind = v['xkind']
+    if kind == 'int':
+        r, rbase = make_points(case['seed'], shape, 0, 1, False, salt=1, kind='int')
+        rcls = 'integer'
+    else:
+        r, rbase = make_points(case['seed'], shape, 0.02, 1.0, False, salt=1, kind=kind)
+    t, tbase = make_points(case['seed'], shape, -math.pi, 2 * math.pi, False, salt=2, kind='f32' if kind == 'f32' else 'f64')
+    if rcls not in ('interior', 'integer'):
+        val_ = {'near0': 1e-7, 'zero': 0.0, 'one': 1.0}[rcls]
+        if kind == 'f32':
+            val_ = float(np.float32(val_))
+        rbase[0] = val_
+        if isinstance(shape, str):
+            r = float(val_)
         else:
-            r.flat[0] = v
+            r.flat[0] = val_
+    rarg = present(r, shape, v)
+    targ = present(t, shape, v, layout=v['layout2'], kind='f32' if kind == 'f32' else 'f64')
     ctx.label('r:' + rcls, shape_label(shape), 'norm' if norm else 'no-norm')
+    var_labels(ctx, v, shape)
     ctx.nt(True)
-    for n, m in nms:
-        ctx.label('m=0' if m == 0 else 'm<0' if m < 0 else 'm>0', n_class(n))
+    if v['pre32']:
+        for n, m in nms:
+            ctx.call(P.zernike_nm_der, n, m, as32(rarg), as32(targ), norm=norm)
+    for i, (n, m) in enumerate(nms):
+        ctx.label('m=0' if m == 0 else 'm<0' if m < 0 else 'm>0', n_class(n), 'm=+-n' if abs(m) == n and n else 'm-inner')
         wr_full = np.imag(ctx.call(P.zernike_nm, n, m, rbase + 1j * H, tbase + 0j, norm=norm)) / H
         wt_full = np.imag(ctx.call(P.zernike_nm, n, m, rbase + 0j, tbase + 1j * H, norm=norm)) / H
-        res = ctx.call(P.zernike_nm_der, n, m, r, t, norm=norm)
-        ctx.require(isinstance(res, tuple) and len(res) == 2, 'zernike_nm_der:return', 'expected (dr, dt), got %r' % (type(res),))
         mc = 'm=0' if m == 0 else 'm!=0'
-        for got, wfull, which in ((res[0], wr_full, 'radial'), (res[1], wt_full, 'azimuthal')):
-            want = shaped(wfull, shape)
-            bucket = 'zernike_nm_der:%s:%s' % (which, mc)
-            U.check_shape(got, np.shape(want), bucket, 'zernike_nm_der(%d,%d) %s' % (n, m, which))
-            U.check_close(got, want, RT, bucket, 'zernike_nm_der(n=%d, m=%d, norm=%s) %s derivative vs complex step' % (n, m, norm, which),
-                          atol=RT * float(np.max(np.abs(wfull))))
-    if shape != 'pyfloat':
-        seq = ctx.call(P.zernike_nm_der_seq, [tuple(e) for e in nms], r, t, norm=norm)
-        U.check_shape(seq, (len(nms), 2) + tuple(shape), 'zernike_nm_der_seq', 'zernike_nm_der_seq(%s)' % nms)
-        for k, (n, m) in enumerate(nms):
-            wr_full = np.imag(P.zernike_nm(n, m, rbase + 1j * H, tbase + 0j, norm=norm)) / H
-            wt_full = np.imag(P.zernike_nm(n, m, rbase + 0j, tbase + 1j * H, norm=norm)) / H
-            for i, wfull, which in ((0, wr_full, 'radial'), (1, wt_full, 'azimuthal')):
-                U.check_close(seq[k][i], shaped(wfull, shape), RT, 'zernike_nm_der_seq:' + which,
-                              'zernike_nm_der_seq(%s)[%d] %s vs complex step' % (nms, k, which), atol=RT * float(np.max(np.abs(wfull))))
+        rt = rtol_of(v, n, RT)
+
+        def verify(res, suffix, n=n, m=m, wr_full=wr_full, wt_full=wt_full, mc=mc, rt=rt):
+            ctx.require(isinstance(res, tuple) and len(res) == 2, 'zernike_nm_der:return', 'expected (dr, dt), got %r' % (type(res),))
+            for got, wfull, which in ((res[0], wr_full, 'radial'), (res[1], wt_full, 'azimuthal')):
+                want = shaped(wfull, shape)
+                bucket = 'zernike_nm_der:%s:%s%s' % (which, mc, suffix)
+                U.check_shape(got, np.shape(want), bucket, 'zernike_nm_der(%d,%d) %s' % (n, m, which))
+                U.check_close(got, want, rt, bucket, 'zernike_nm_der(n=%d, m=%d, norm=%s, r: %s %s) %s derivative vs complex step' % (
+                    n, m, norm, kind, shape_label(shape), which), atol=rt * float(np.max(np.abs(wfull))))
+        res = call(ctx, mc, P.zernike_nm_der, n, m, rarg, targ, norm=norm)
+        verify(res, '')
+        if i == 0:
+            n2, m2 = n + 2, m
+            reuse_check(ctx, v, 'zernike_nm_der', res, (rarg, targ), lambda: ctx.call(P.zernike_nm_der, n2, m2, rarg, targ, norm=norm),
+                        lambda: ctx.call(P.zernike_nm_der, n, m, rarg, targ, norm=norm), lambda g, b: verify(g, b[len('zernike_nm_der'):]))
+    if not (shape == 'pyfloat' or kind == 'int'):
+        nmarg = [tuple(e) for e in nms] if v['ns_as'] == 'list' else tuple(tuple(e) for e in nms) if v['ns_as'] == 'tuple' else np.array(nms)
+        ctx.label('nms-as:' + v['ns_as'])
+        refs = []
+        for n, m in nms:
+            refs.append((np.imag(P.zernike_nm(n, m, rbase + 1j * H, tbase + 0j, norm=norm)) / H,
+                         np.imag(P.zernike_nm(n, m, rbase + 0j, tbase + 1j * H, norm=norm)) / H))
+
+        def verify_seq(seq, suffix):
+            U.check_shape(seq, (len(nms), 2) + shape_tuple(shape), 'zernike_nm_der_seq' + suffix, 'zernike_nm_der_seq(%s)' % nms)
+            for k, (n, m) in enumerate(nms):
+                rt = rtol_of(v, n, RT)
+                for i, which in ((0, 'radial'), (1, 'azimuthal')):
+                    wfull = refs[k][i]
+                    U.check_close(seq[k][i], shaped(wfull, shape), rt, 'zernike_nm_der_seq:' + which + suffix,
+                                  'zernike_nm_der_seq(%s)[%d] %s vs complex step' % (nms, k, which), atol=rt * float(np.max(np.abs(wfull))))
+        seq = call(ctx, 'seq', P.zernike_nm_der_seq, nmarg, rarg, targ, norm=norm)
+        verify_seq(seq, '')
+        other = [tuple(e) for e in reversed(nms)] + [(2, 0)]
+        reuse_check(ctx, v, 'zernike_nm_der_seq', seq, (rarg, targ), lambda: ctx.call(P.zernike_nm_der_seq, other, rarg, targ, norm=norm),
+                    lambda: ctx.call(P.zernike_nm_der_seq, nmarg, rarg, targ, norm=norm), lambda g, b: verify_seq(g, b[len('zernike_nm_der_seq'):]))
 
 
 # ---- Clenshaw derivative sums: Jacobi ----------------------------------------------------------------
+def coefs_of(mask, seed, salt, how):
+    """coefficient values for the drawn container: U(-1,1) bounded away from 0, or non-zero integers for the integer containers"""
+    if how in ('intlist', 'intarray'):
+        r = U.rng_of(seed, salt)
+        vals = r.integers(1, 4, len(mask)) * r.choice([-1, 1], len(mask))
+        return [int(c) if k else 0 for c, k in zip(vals, mask)]
+    return coef_vector(mask, seed, salt)
+
+
+def long_masks(lo, hi):
+    dense = st.integers(lo, hi).map(lambda k: [1] * k)
+    sparse = st.lists(st.sampled_from([0, 0, 0, 1]), min_size=lo, max_size=hi).map(lambda m: m[:-1] + [1])
+    return st.one_of(dense, sparse)
+
+
+def settle_sum_kind(v, shape):
+    """the Clenshaw / sag-and-slope routines allocate their sums in the dtype of x (configured precision for a Python scalar): on
+    the unchanged code integer points are accepted only as Python ints and complex ones only as arrays / numpy scalars"""
+    v = dict(v)
+    if (v['xkind'] == 'int' and shape != 'pyfloat') or (v['xkind'] == 'complex' and shape == 'pyfloat'):
+        v['xkind'] = 'f64'
+    return v
+
+
 def strat_clenshaw_jacobi(tier):
     L = {'quick': 12, 'thorough': 30}[tier]
-    return st.fixed_dictionaries({'mask': masks(L), 'ab': ab_pairs(), 'j': st.integers(1, 4), 'shape': point_shapes(),
-                                  'edge': st.booleans(), 'seed': U.seeds})
+    return st.fixed_dictionaries({'mask': st.one_of(masks(L), masks(L), masks(L), long_masks(41, 200)), 'ab': ab_pairs(), 'j': st.integers(1, 4),
+                                  'shape': point_shapes(), 'edge': st.booleans(), 'seed': U.seeds, 'v': variants()})
 
 
 def check_clenshaw_jacobi(case, ctx):
-    """jacobi_sum_clenshaw_der(s, a, b, x, j)[k][0] == sum_n s_n d^k/dx^k P_n^(a,b)(x) for every k = 1..j (scipy explicit sum)."""
-    from prysm.polynomials import jacobi_sum_clenshaw_der
+    """jacobi_sum_clenshaw_der(s, a, b, x, j)[k][0] == sum_n s_n d^k/dx^k P_n^(a,b)(x) for every k = 1..j (scipy explicit sum; vectors
+    longer than 40 terms: k = 1, 2 by complex step of sum s_n P_n and of sum s_n P_n')."""
+    from prysm.polynomials import jacobi_sum_clenshaw_der, jacobi, jacobi_der
     mask, (a, b), j, shape = case['mask'], case['ab'], case['j'], case['shape']
-    s = coef_vector(mask, case['seed'], 3)
-    x, base = make_points(case['seed'], shape, -1.0, 1.0, case['edge'])
+    v = var_of(case)
+    v = settle_sum_kind(v, shape)
+    s = coefs_of(mask, case['seed'], 3, v['cs_as'])
+    sarg = contain(s, v['cs_as'])
+    x, base = make_points(case['seed'], shape, -1.0, 1.0, case['edge'], kind=v['xkind'])
+    xarg = present(x, shape, v)
     M = len(s) - 1
-    ctx.label(mask_class(mask), 'j=%d' % j, ab_class(a, b), shape_label(shape), 'j>=len(s)' if j > M else 'j<len(s)')
-    ctx.nt(j >= 2 or len(s) == 1 or not all(mask) or ab_class(a, b) != 'ab:tabulated')
+    long_ = M >= 40
+    ctx.label(mask_class(mask), 'j=%d' % j, ab_class(a, b), shape_label(shape), 'j>=len(s)' if j > M else 'j<len(s)', 'cs-as:' + v['cs_as'],
+              'len>40' if long_ else 'len<=40')
+    nt = var_labels(ctx, v, shape)
+    ctx.nt(nt or j >= 2 or len(s) == 1 or not all(mask) or ab_class(a, b) != 'ab:tabulated' or v['cs_as'] != 'list')
     vcls = 'len1' if M == 0 else 'j=1' if j == 1 else 'j>=2,j>=len(s)' if j > M else 'j>=2'
-    alphas = call(ctx, vcls, jacobi_sum_clenshaw_der, s, a, b, x, j=j)
-    ctx.require(np.ndim(alphas) >= 2 and np.shape(alphas)[0] == j + 1, 'jacobi_sum_clenshaw_der:shape',
-                'alphas has shape %s, expected leading dimension j+1=%d' % (np.shape(alphas), j + 1))
-    for k in range(1, j + 1):
+    if v['pre32']:
+        call(ctx, vcls + ':float32', jacobi_sum_clenshaw_der, sarg, a, b, as32(xarg), j=j)
+    refs = {}
+    for k in range(1, (min(j, 2) if long_ else j) + 1):
         full = np.zeros_like(base)
         scale = 0.0
         for n in range(k, M + 1):
             if s[n] == 0:
                 continue
-            term = s[n] * sps.poch(n + a + b + 1, k) / 2.0 ** k * sps.eval_jacobi(n - k, a + k, b + k, base)
+            if long_:       # the value routine (k = 1) / the first-derivative routine pinned by der_scalar (k = 2), by complex step
+                term = s[n] * np.imag(ctx.call(jacobi if k == 1 else jacobi_der, n, a, b, base + 1j * H)) / H
+            else:
+                term = s[n] * sps.poch(n + a + b + 1, k) / 2.0 ** k * sps.eval_jacobi(n - k, a + k, b + k, base)
             full += term
             scale += float(np.max(np.abs(term)))
-        want = shaped(full, shape)
-        got = alphas[k][0]
-        bucket = 'jacobi_sum_clenshaw_der:%s' % vcls
-        U.check_shape(got, np.shape(want), bucket, 'alphas[%d][0] for x of shape %s' % (k, shape))
-        U.check_close(got, want, 1e-8, bucket, 'jacobi_sum_clenshaw_der(s=%s, a=%r, b=%r, j=%d): derivative of order %d' % (s, a, b, j, k),
-                      atol=1e-8 * scale)
+        refs[k] = (shaped(full, shape), scale)
+    rt = rtol_of(v, M, 1e-8)
+
+    def verify(alphas, bucket):
+        ctx.require(np.ndim(alphas) >= 2 and np.shape(alphas)[0] == j + 1, 'jacobi_sum_clenshaw_der:shape',
+                    'alphas has shape %s, expected leading dimension j+1=%d' % (np.shape(alphas), j + 1))
+        for k, (want, scale) in refs.items():
+            got = alphas[k][0]
+            U.check_shape(got, np.shape(want), bucket, 'alphas[%d][0] for x of shape %s' % (k, shape))
+            U.check_close(got, want, rt, bucket, 'jacobi_sum_clenshaw_der(s=%s, a=%r, b=%r, x: %s %s, j=%d): derivative of order %d' % (
+                s if len(s) <= 12 else '<%d terms>' % len(s), a, b, v['xkind'], shape_label(shape), j, k), atol=rt * scale)
+    bucket = 'jacobi_sum_clenshaw_der:%s' % vcls
+    if case['seed'] % 2:        # other entry point: x by keyword, as compute_z_zprime_Qcon passes it
+        ctx.label('x-by-keyword')
+        alphas = call(ctx, vcls, jacobi_sum_clenshaw_der, sarg, a, b, x=xarg, j=j)
+    else:
+        alphas = call(ctx, vcls, jacobi_sum_clenshaw_der, sarg, a, b, xarg, j=j)
+    verify(alphas, bucket)
+    s2 = contain([-2.0 * c + 0.25 for c in s] + [0.5], 'list')
+    reuse_check(ctx, v, bucket, alphas, (xarg, sarg), lambda: ctx.call(jacobi_sum_clenshaw_der, s2, a, b, xarg, j=j),
+                lambda: ctx.call(jacobi_sum_clenshaw_der, sarg, a, b, xarg, j=j), verify)
 
 
 # ---- Clenshaw derivative sums and sag/slope: Qbfs, Qcon ----------------------------------------------
@@ -384,8 +738,8 @@ def cauchy_taylor(f, x0, rho, kmax, K):
 
 def strat_clenshaw_q(tier):
     L = {'quick': 10, 'thorough': 20}[tier]
-    return st.fixed_dictionaries({'kind': st.sampled_from(['qbfs', 'q2d', 'q2d']), 'mask': masks(L), 'm': st.integers(1, 8),
-                                  'j': st.integers(1, 4), 'shape': array_shapes(4), 'seed': U.seeds})
+    return st.fixed_dictionaries({'kind': st.sampled_from(['qbfs', 'q2d', 'q2d']), 'mask': masks(L), 'm': st.one_of(st.integers(1, 8), st.sampled_from([1, 2, 12, 16, 20])),
+                                  'j': st.integers(1, 4), 'shape': point_shapes(4), 'seed': U.seeds, 'v': variants(('f64', 'f32', 'complex'))})
 
 
 def check_clenshaw_q(case, ctx):
@@ -393,48 +747,66 @@ def check_clenshaw_q(case, ctx):
     from prysm.polynomials import Qbfs, Q2d
     from prysm.polynomials.qpoly import clenshaw_qbfs_der, clenshaw_q2d_der
     kind, mask, m, j, shape = case['kind'], case['mask'], case['m'], case['j'], case['shape']
-    cs = coef_vector(mask, case['seed'], 4)
-    x, base = make_points(case['seed'], shape, 0.2, 0.8, False)
+    v = settle_sum_kind(var_of(case, ('f64', 'f32', 'complex')), shape)
+    cs = coefs_of(mask, case['seed'], 4, v['cs_as'])
+    carg = contain(cs, v['cs_as'])
+    x, base = make_points(case['seed'], shape, 0.2, 0.8, False, kind=v['xkind'])
+    xarg = present(x, shape, v)
     N = len(cs) - 1
-    ctx.label(kind, mask_class(mask), 'j=%d' % j, shape_label(shape), 'j>=len' if j > N else 'j<len')
+    ctx.label(kind, mask_class(mask), 'j=%d' % j, shape_label(shape), 'j>=len' if j > N else 'j<len', 'cs-as:' + v['cs_as'])
     if kind == 'q2d':
-        ctx.label('m=%s' % (m if m <= 3 else '>3'))
-    ctx.nt(j >= 2 or len(cs) == 1 or not all(mask))
+        ctx.label('m=%s' % (m if m <= 3 else '4..8' if m <= 8 else '>8'))
+    nt = var_labels(ctx, v, shape)
+    ctx.nt(nt or j >= 2 or len(cs) == 1 or not all(mask) or v['cs_as'] != 'list')
     vcls = 'len1' if N == 0 else 'j=1' if j == 1 else 'j>=2,j>=len' if j > N else 'j>=2'
 
     if kind == 'qbfs':
         def S(z):   # sum c_n Q_n(z), Q_n(u^2) = Qbfs(n, u) / (u^2 (1-u^2))
             u = np.sqrt(z)
             return sum(c * Qbfs(n, u) for n, c in enumerate(cs) if c != 0) / (z * (1 - z)) if any(cs) else np.zeros_like(z)
-        alphas = call(ctx, vcls, clenshaw_qbfs_der, cs, x, j=j)
+
+        def run(c_, x_):
+            return clenshaw_qbfs_der(c_, x_, j=j)
     else:
         def S(z):   # Q_n^m(u^2) = Q2d(n, m, u, 0) / u^m
             u = np.sqrt(z)
             t = np.zeros_like(u)
             return sum(c * Q2d(n, m, u, t) for n, c in enumerate(cs) if c != 0) / u ** m if any(cs) else np.zeros_like(z)
-        alphas = call(ctx, vcls, clenshaw_q2d_der, cs, m, x, j=j)
+
+        def run(c_, x_):
+            return clenshaw_q2d_der(c_, m, x_, j=j)
+    run.__name__ = run.__qualname__ = 'clenshaw_%s_der' % kind
+    if v['pre32']:
+        call(ctx, vcls + ':float32', run, carg, as32(xarg))
     derivs, fmax = ctx.call(cauchy_taylor, S, base, 0.15, j, 64)
-    ctx.require(np.ndim(alphas) >= 2 and np.shape(alphas)[0] == j + 1, 'clenshaw_%s_der:shape' % kind,
-                'alphas has shape %s, expected leading dimension j+1=%d' % (np.shape(alphas), j + 1))
-    for k in range(1, j + 1):
-        if kind == 'qbfs':
-            got = 2 * (alphas[k][0] + alphas[k][1]) if np.shape(alphas)[1] > 1 else 2 * alphas[k][0]
-        else:
-            got = 0.5 * alphas[k][0]
-            if m == 1 and N > 2:
-                got = got - 2 / 5 * alphas[k][3]
-        want = shaped(derivs[k], shape)
-        bucket = 'clenshaw_%s_der:%s' % (kind, vcls)
-        U.check_shape(got, np.shape(want), bucket, 'row %d' % k)
-        noise = 1e-12 * fmax * math.factorial(k) / 0.15 ** k
-        U.check_close(got, want, 1e-7, bucket, 'clenshaw_%s_der(cs=%s%s, j=%d): derivative of order %d w.r.t. u^2' % (
-            kind, cs, '' if kind == 'qbfs' else ', m=%d' % m, j, k), atol=1e-7 * float(np.max(np.abs(derivs[k]))) + noise)
+    rt = rtol_of(v, N, 1e-7)
+
+    def verify(alphas, bucket):
+        ctx.require(np.ndim(alphas) >= 2 and np.shape(alphas)[0] == j + 1, 'clenshaw_%s_der:shape' % kind,
+                    'alphas has shape %s, expected leading dimension j+1=%d' % (np.shape(alphas), j + 1))
+        for k in range(1, j + 1):
+            if kind == 'qbfs':
+                got = 2 * (alphas[k][0] + alphas[k][1]) if np.shape(alphas)[1] > 1 else 2 * alphas[k][0]
+            else:
+                got = 0.5 * alphas[k][0]
+                if m == 1 and N > 2:
+                    got = got - 2 / 5 * alphas[k][3]
+            want = shaped(derivs[k], shape)
+            U.check_shape(got, np.shape(want), bucket, 'row %d' % k)
+            noise = 1e-12 * fmax * math.factorial(k) / 0.15 ** k
+            U.check_close(got, want, rt, bucket, 'clenshaw_%s_der(cs=%s%s, x: %s %s, j=%d): derivative of order %d w.r.t. u^2' % (
+                kind, cs, '' if kind == 'qbfs' else ', m=%d' % m, v['xkind'], shape_label(shape), j, k), atol=rt * float(np.max(np.abs(derivs[k]))) + noise)
+    bucket = 'clenshaw_%s_der:%s%s' % (kind, vcls, ':integer-coefficient-array' if v['cs_as'] == 'intarray' else '')
+    alphas = call(ctx, vcls, run, carg, xarg)
+    verify(alphas, bucket)
+    c2 = [0.5 - c for c in cs] + [1.0]
+    reuse_check(ctx, v, bucket, alphas, (xarg, carg), lambda: ctx.call(run, c2, xarg), lambda: ctx.call(run, carg, xarg), verify)
 
 
 def strat_zprime(tier):
     L = {'quick': 10, 'thorough': 24}[tier]
-    return st.fixed_dictionaries({'kind': st.sampled_from(['Qbfs', 'Qcon']), 'mask': masks(L), 'shape': point_shapes(),
-                                  'edge': st.booleans(), 'seed': U.seeds})
+    return st.fixed_dictionaries({'kind': st.sampled_from(['Qbfs', 'Qcon']), 'mask': st.one_of(masks(L), masks(L), masks(L), long_masks(25, 60)), 'shape': point_shapes(),
+                                  'edge': st.booleans(), 'seed': U.seeds, 'v': variants()})
 
 
 def check_zprime(case, ctx):
@@ -442,12 +814,21 @@ def check_zprime(case, ctx):
     from prysm.polynomials import Qbfs, Qcon
     from prysm.polynomials.qpoly import compute_z_zprime_Qbfs, compute_z_zprime_Qcon
     kind, mask, shape = case['kind'], case['mask'], case['shape']
-    cs = coef_vector(mask, case['seed'], 5)
-    u, base = make_points(case['seed'], shape, 0.0, 1.0, case['edge'])
-    ctx.label(kind, mask_class(mask), shape_label(shape), 'edge' if case['edge'] else 'interior')
-    ctx.nt(len(cs) == 1 or not all(mask) or shape == 'pyfloat' or len(shape) != 1)
+    v = settle_sum_kind(var_of(case), shape)
+    cs = coefs_of(mask, case['seed'], 5, v['cs_as'])
+    carg = contain(cs, v['cs_as'])
+    u, base = make_points(case['seed'], shape, 0.0, 1.0, case['edge'], kind=v['xkind'])
+    uarg = present(u, shape, v)
+    usq = uarg * uarg
+    ctx.label(kind, mask_class(mask), shape_label(shape), 'edge' if case['edge'] else 'interior', 'cs-as:' + v['cs_as'], 'len>24' if len(cs) > 24 else 'len<=24')
+    nt = var_labels(ctx, v, shape)
+    ctx.nt(nt or len(cs) == 1 or not all(mask) or isinstance(shape, str) or len(shape) != 1 or v['cs_as'] != 'list')
     Q = Qbfs if kind == 'Qbfs' else Qcon
     fn = compute_z_zprime_Qbfs if kind == 'Qbfs' else compute_z_zprime_Qcon
+    lcls = 'len1' if len(cs) == 1 else 'len>=2'
+    if v['pre32']:
+        u32 = as32(uarg)
+        call(ctx, lcls + ':float32', fn, carg, u32, u32 * u32)
     full = np.zeros_like(base)
     scale = 0.0
     for n, c in enumerate(cs):
@@ -455,13 +836,19 @@ def check_zprime(case, ctx):
             term = c * np.imag(ctx.call(Q, n, base + 1j * H)) / H
             full += term
             scale += float(np.max(np.abs(term)))
-    res = call(ctx, 'len1' if len(cs) == 1 else 'len>=2', fn, cs, u, u * u)
-    ctx.require(isinstance(res, tuple) and len(res) == 2, 'compute_z_zprime_%s:return' % kind, 'expected (z, zprime)')
     want = shaped(full, shape)
-    bucket = 'compute_z_zprime_%s:slope:%s' % (kind, 'len1' if len(cs) == 1 else 'len>=2')
-    U.check_shape(res[1], np.shape(want), bucket, 'slope for u of shape %s' % (shape,))
-    U.check_close(res[1], want, 1e-8, bucket, 'compute_z_zprime_%s(cs=%s): slope vs complex-step derivative of sum c_n %s(n,u)' % (kind, cs, kind),
-                  atol=1e-8 * scale)
+    rt = rtol_of(v, len(cs), 1e-8)
+
+    def verify(res, bucket):
+        ctx.require(isinstance(res, tuple) and len(res) == 2, 'compute_z_zprime_%s:return' % kind, 'expected (z, zprime)')
+        U.check_shape(res[1], np.shape(want), bucket, 'slope for u of shape %s' % (shape,))
+        U.check_close(res[1], want, rt, bucket, 'compute_z_zprime_%s(cs=%s, u: %s %s): slope vs complex-step derivative of sum c_n %s(n,u)' % (
+            kind, cs if len(cs) <= 12 else '<%d terms>' % len(cs), v['xkind'], shape_label(shape), kind), atol=rt * scale)
+    bucket = 'compute_z_zprime_%s:slope:%s%s' % (kind, lcls, ':integer-coefficient-array' if v['cs_as'] == 'intarray' else '')
+    res = call(ctx, lcls, fn, carg, uarg, usq)
+    verify(res, bucket)
+    c2 = [0.5 - c for c in cs] + [1.0]
+    reuse_check(ctx, v, bucket, res, (uarg, usq, carg), lambda: ctx.call(fn, c2, uarg, usq), lambda: ctx.call(fn, carg, uarg, usq), verify)
 
 
 # ---- 2D-Q sag / slope ----------------------------------------------------------------------------------
@@ -473,17 +860,35 @@ def q2d_coefs(tier):
     # packer Q2d_nm_c_to_a_b emits an empty list for the absent family)
     kind = st.sampled_from(['both'] * 7 + ['none', 'cosine-only', 'sine-only'])
     pair = st.tuples(kind, vec, vec).map(lambda t: [[] if t[0] in ('none', 'sine-only') else t[1], [] if t[0] in ('none', 'cosine-only') else t[2]])
-    return st.fixed_dictionaries({'cm0': st.one_of(vec, st.just([])), 'ab': st.lists(pair, min_size=0, max_size=mm)})
+    # 'gap': a run of azimuthal orders without terms before the drawn ones (high |m| with few modes, e.g. m = 12 only)
+    return st.fixed_dictionaries({'cm0': st.one_of(vec, st.just([])), 'ab': st.lists(pair, min_size=0, max_size=mm),
+                                  'gap': st.sampled_from([0, 0, 0, 1, 2, 5, 9, 14])})
 
 
-def q2d_expand(case):
+def q2d_expand(case, how='list'):
     seed = case['seed']
-    cm0 = coef_vector(case['coefs']['cm0'], seed, 10)
-    ams, bms = [], []
+    cm0 = coefs_of(case['coefs']['cm0'], seed, 10, how)
+    gap = case['coefs'].get('gap', 0) if case['coefs']['ab'] else 0
+    ams, bms = [[] for _ in range(gap)], [[] for _ in range(gap)]
     for i, (ma, mb) in enumerate(case['coefs']['ab']):
-        ams.append(coef_vector(ma, seed, 100 + i))
-        bms.append(coef_vector(mb, seed, 200 + i))
+        ams.append(coefs_of(ma, seed, 100 + i, how))
+        bms.append(coefs_of(mb, seed, 200 + i, how))
     return cm0, ams, bms
+
+
+def q2d_contain(cm0, ams, bms, how):
+    """the three coefficient arguments in the drawn container: lists of lists, tuples of tuples, or (float / integer) arrays per
+    order - one rectangular 2-D array when every order has the same number of terms, as the repository's own tests pass them"""
+    if how in ('list', 'intlist'):
+        return [list(cm0), [list(a) for a in ams], [list(b) for b in bms]]
+    if how == 'tuple':
+        return [tuple(cm0), tuple(tuple(a) for a in ams), tuple(tuple(b) for b in bms)]
+
+    def pack(vs):
+        if vs and len({len(e) for e in vs}) == 1 and len(vs[0]) > 0:
+            return np.array(vs)
+        return [np.array(e) if len(e) else [] for e in vs]
+    return [np.array(cm0) if len(cm0) else [], pack(ams), pack(bms)]
 
 
 def q2d_modes(cm0, ams, bms):
@@ -496,7 +901,9 @@ def q2d_modes(cm0, ams, bms):
 
 def q2d_labels(ctx, case):
     c = case['coefs']
-    ctx.label('cm0:' + ('empty' if not c['cm0'] else mask_class(c['cm0'])), 'max|m|=%d' % len(c['ab']))
+    gap = c.get('gap', 0) if c['ab'] else 0
+    ctx.label('cm0:' + ('empty' if not c['cm0'] else mask_class(c['cm0'])), 'max|m|=%s' % (len(c['ab']) + gap if len(c['ab']) + gap <= 9 else '>9'),
+              'leading-empty-orders' if gap else 'no-leading-gap')
     for ma, mb in c['ab']:
         ctx.label('m-order:both-empty' if not ma and not mb else 'm-order:cosine-only' if not mb else 'm-order:sine-only' if not ma
                   else 'm-order:has-len1' if 1 in (len(ma), len(mb)) else 'm-order:len>=2')
@@ -508,7 +915,8 @@ def q2d_labels(ctx, case):
 
 
 def strat_q2d(tier):
-    return st.fixed_dictionaries({'coefs': q2d_coefs(tier), 'shape': point_shapes(4), 'edge': st.booleans(), 'seed': U.seeds})
+    return st.fixed_dictionaries({'coefs': q2d_coefs(tier), 'shape': point_shapes(4), 'edge': st.booleans(), 'seed': U.seeds,
+                                  'v': variants(('f64', 'f32'))})
 
 
 def q2d_explicit(ctx, modes, ubase, tbase):
@@ -530,73 +938,143 @@ def check_q2d(case, ctx):
     """compute_z_zprime_Q2d: radial and azimuthal slope outputs == d/du, d/dt of sum c Q2d(n,m,u,t) (complex step)."""
     from prysm.polynomials.qpoly import compute_z_zprime_Q2d
     shape = case['shape']
-    cm0, ams, bms = q2d_expand(case)
+    v = var_of(case, ('f64', 'f32'))      # integer points: the sums are allocated in the dtype of u; complex: u and t are combined in place
+    cm0, ams, bms = q2d_expand(case, v['cs_as'])
+    cargs = q2d_contain(cm0, ams, bms, v['cs_as'])
     cls = q2d_labels(ctx, case)
-    ctx.label(shape_label(shape))
+    ctx.label(shape_label(shape), 'cs-as:' + v['cs_as'])
+    var_labels(ctx, v, shape)
     ctx.nt(True)
-    u, ubase = make_points(case['seed'], shape, 0.0, 1.0, case['edge'], salt=1)
-    t, tbase = make_points(case['seed'], shape, -math.pi, 2 * math.pi, False, salt=2)
+    u, ubase = make_points(case['seed'], shape, 0.0, 1.0, case['edge'], salt=1, kind=v['xkind'])
+    t, tbase = make_points(case['seed'], shape, -math.pi, 2 * math.pi, False, salt=2, kind=v['xkind'])
+    uarg = present(u, shape, v)
+    targ = present(t, shape, v, layout=v['layout2'])
     modes = q2d_modes(cm0, ams, bms)
+    if v['pre32']:
+        call(ctx, cls + ':float32', compute_z_zprime_Q2d, *cargs, as32(uarg), as32(targ))
     dr, dt, sr, st_ = q2d_explicit(ctx, modes, ubase, tbase)
-    res = call(ctx, cls, compute_z_zprime_Q2d, cm0, ams, bms, u, t)
-    ctx.require(isinstance(res, tuple) and len(res) == 3, 'compute_z_zprime_Q2d:return', 'expected (z, dr, dt)')
-    for got, wfull, sc, which in ((res[1], dr, sr, 'radial'), (res[2], dt, st_, 'azimuthal')):
-        want = shaped(wfull, shape)
-        bucket = 'compute_z_zprime_Q2d:%s:%s' % (which, cls)
-        U.check_shape(got, np.shape(want), bucket, '%s slope for u of shape %s' % (which, shape))
-        U.check_close(got, want, 1e-8, bucket, 'compute_z_zprime_Q2d(cm0=%s, ams=%s, bms=%s): %s slope vs complex step of the mode sum' % (
-            cm0, ams, bms, which), atol=1e-8 * sc)
+    rt = rtol_of(v, 12, 1e-8)
+    isuf = ':integer-coefficient-array' if v['cs_as'] == 'intarray' else ''
+
+    def verify(res, suffix):
+        ctx.require(isinstance(res, tuple) and len(res) == 3, 'compute_z_zprime_Q2d:return', 'expected (z, dr, dt)')
+        for got, wfull, sc, which in ((res[1], dr, sr, 'radial'), (res[2], dt, st_, 'azimuthal')):
+            want = shaped(wfull, shape)
+            bucket = 'compute_z_zprime_Q2d:%s:%s%s%s' % (which, cls, isuf, suffix)
+            U.check_shape(got, np.shape(want), bucket, '%s slope for u of shape %s' % (which, shape))
+            U.check_close(got, want, rt, bucket, 'compute_z_zprime_Q2d(cm0=%s, ams=%s, bms=%s, u: %s %s): %s slope vs complex step of the mode sum' % (
+                cm0, ams, bms, v['xkind'], shape_label(shape), which), atol=rt * sc)
+    res = call(ctx, cls, compute_z_zprime_Q2d, *cargs, uarg, targ)
+    verify(res, '')
+    other = [[0.5] + [1.0 - c for c in cm0], [[0.25, -0.5, 1.0]] + [list(a) for a in ams], [[1.0]] + [list(b) for b in bms]]
+    reuse_check(ctx, v, 'compute_z_zprime_Q2d', res, (uarg, targ, cargs), lambda: ctx.call(compute_z_zprime_Q2d, *other, uarg, targ),
+                lambda: ctx.call(compute_z_zprime_Q2d, *cargs, uarg, targ), lambda g, b: verify(g, b[len('compute_z_zprime_Q2d'):]))
 
 
 # ---- ray-tracing sag / slope helpers -------------------------------------------------------------------
+# conic constants: the special values, their neighbours (formulas that branch on k == -1 / k == 0 or divide by 1 + k), the ends
+K_SPECIAL = [0, 0, -1, 1, -2, 0.5, -1 + 1e-12, -1 - 1e-12, -1 + 1e-6, -1 - 1e-6, 1e-12, -1e-12, 1e-300, -0.999, -1.001, -5.0, 3.0]
+QMAX = [0.8, 0.8, 0.99, 0.9999, 0.999999, 0.999999]     # largest (1+k) c^2 rho^2 reached: the edge of the real-sag domain is 1
+
+
+def conic_k():
+    return st.one_of(st.sampled_from(K_SPECIAL), U.nice_float(-3.0, 2.0))
+
+
 def strat_conics(tier):
     return st.fixed_dictionaries({
-        'fn': st.sampled_from(['sphere', 'conic', 'dircos', 'off_axis', 'sigma', 'ffp_conic', 'ffp_off_axis']),
+        'fn': st.sampled_from(['sphere', 'conic', 'dircos', 'off_axis', 'sigma', 'ffp_conic', 'ffp_off_axis', 'ffp_sphere']),
         'c': st.tuples(U.nice_float(0.01, 0.5), st.sampled_from([1, -1])).map(lambda t: t[0] * t[1]),
-        'k': st.one_of(st.sampled_from([0, 0, -1, 1, -2, 0.5]), U.nice_float(-3.0, 2.0)),
-        'fs': U.nice_float(0.05, 0.6), 'axis': st.sampled_from(['dx', 'dy', 'none', '-dx', '-dy']), 'fr': U.nice_float(0.05, 0.95),
-        'shape': point_shapes(4), 'seed': U.seeds})
+        'k': conic_k(), 'qmax': st.sampled_from(QMAX), 'edge': st.booleans(), 'phi_given': st.booleans(),
+        'fs': U.nice_float(0.05, 0.6), 'axis': st.sampled_from(['dx', 'dy', 'none', '-dx', '-dy']), 'fr': st.one_of(U.nice_float(0.05, 0.95), st.just(1.0)),
+        'shape': point_shapes(4), 'seed': U.seeds, 'v': variants()})
 
 
-def conic_geometry(case):
-    """limit L on sqrt(aggregate) such that (1+k) c^2 A <= 0.8 (and 1 - k c^2 A >= 0.2); shift s and rho_max inside it"""
+def conic_geometry(case, v=None):
+    """limit L on sqrt(aggregate) such that (1+k) c^2 A <= qmax (0.8 unless drawn) and 1 - k c^2 A >= 1 - qmax; shift s and rho_max inside it"""
     c, k = case['c'], case['k']
-    if case['fn'] in ('sphere',):
+    if case['fn'] in ('sphere', 'ffp_sphere'):
         k = 0
-    lim = 0.8 / (max(1 + k, -k, 0.05) * c * c)
+    qmax = case.get('qmax', 0.8)
+    if v is not None and v['xkind'] == 'f32':
+        qmax = 0.8        # single precision loses eps32 / (1 - q) next to the edge of the domain: stay where the conditioning is ~1
+    lim = qmax / (max(1 + k, -k, 0.05) * c * c)
     L = min(math.sqrt(lim), 20.0)
     axis = case['axis']
+    if 'qmax' in case and case['fn'] in ('sphere', 'conic', 'dircos', 'ffp_conic', 'ffp_sphere'):
+        axis = 'none'       # rotationally symmetric helpers: no shift to make room for, rho reaches the drawn edge of the domain
     s = 0.0 if axis == 'none' else case['fs'] * L * (-1 if axis.startswith('-') else 1)
     rmax = case['fr'] * (L - abs(s))
     dx, dy = (s, 0.0) if axis.endswith('dx') else (0.0, s)
     return c, k, dx, dy, rmax
 
 
+def k_class(k):
+    return 'k=0' if k == 0 else 'k=-1' if k == -1 else 'k!=0'
+
+
 def check_conics(case, ctx):
     """sphere/conic/off-axis-conic sag derivatives, d(1/phi)/drho, d(1/sigma)/dr,dt and Surface.FFp slopes vs complex step of the sag / value routine."""
     from prysm.x.raytracing import surfaces as S
     fn, shape = case['fn'], case['shape']
-    c, k, dx, dy, rmax = conic_geometry(case)
-    rho, rbase = make_points(case['seed'], shape, 0.02 * rmax, rmax, False, salt=1)
-    t, tbase = make_points(case['seed'], shape, -math.pi, 2 * math.pi, False, salt=2)
-    kcls = 'k=0' if k == 0 else 'k=-1' if k == -1 else 'k!=0'
-    ctx.label(fn, kcls, shape_label(shape), 'shift:' + ('none' if dx == dy == 0 else 'x' if dx else 'y'))
-    ctx.nt(k != 0 or dx != 0 or dy != 0 or shape == 'pyfloat' or len(shape) != 1)
+    v = var_of(case)
+    ffp = fn.startswith('ffp')
+    if v['xkind'] == 'complex' and (ffp or fn in ('off_axis', 'sigma')):
+        v['xkind'] = 'f64'       # polar conversion / in-place combination of r and t: real coordinates only
+    if v['itype'] in ('int8', 'int16'):
+        v['itype'] = 'int32'     # numpy takes sqrt / arctan2 of 8- and 16-bit integers in half / single precision
+    c, k, dx, dy, rmax = conic_geometry(case, v)
+    kind = v['xkind']
+    edge = case.get('edge', False) or case.get('qmax', 0.8) > 0.9      # next to the edge of the domain: the outermost point is on rho_max
+    if kind == 'int':
+        rho, rbase = make_points(case['seed'], shape, 0, rmax, False, salt=1, kind='int')
+    else:
+        rho, rbase = make_points(case['seed'], shape, 0.02 * rmax, rmax, edge, salt=1, kind=kind)
+    t, tbase = make_points(case['seed'], shape, -math.pi, 2 * math.pi, False, salt=2, kind='f32' if kind == 'f32' else 'f64')
+    kcls = k_class(k)
+    q = max(1 + k, 0.0) * c * c * float(np.max(rbase)) ** 2
+    ctx.label(fn, kcls, shape_label(shape), 'shift:' + ('none' if dx == dy == 0 else 'x' if dx else 'y'),
+              'k-near-special' if k not in (0, -1) and (abs(k) < 1e-5 or abs(k + 1) < 1e-5) else 'k-plain',
+              'q>0.99' if q > 0.99 else 'q>0.8' if q > 0.8 else 'q<=0.8')
+    nt = var_labels(ctx, v, shape)
+    ctx.nt(nt or k != 0 or dx != 0 or dy != 0 or isinstance(shape, str) or len(shape) != 1)
+    rt = rtol_of(v, 0, RT)
+    rt8 = rtol_of(v, 0, 1e-8)
 
     def cmp(got, wfull, bucket, what):
         want = shaped(wfull, shape)
         U.check_shape(got, np.shape(want), bucket, what)
-        U.check_close(got, want, RT, bucket, what + ' (c=%r, k=%r, dx=%r, dy=%r)' % (c, k, dx, dy), atol=RT * float(np.max(np.abs(wfull))))
+        U.check_close(got, want, rt, bucket, what + ' (c=%r, k=%r, dx=%r, dy=%r, rho: %s %s)' % (c, k, dx, dy, kind, shape_label(shape)),
+                      atol=rt * float(np.max(np.abs(wfull))))
 
     rc = rbase + 1j * H
-    if fn == 'sphere':
-        cmp(ctx.call(S.sphere_sag_der, c, rho), np.imag(ctx.call(S.sphere_sag, c, rc * rc)) / H, 'sphere_sag_der', 'sphere_sag_der vs d/drho sphere_sag')
-    elif fn == 'conic':
-        cmp(ctx.call(S.conic_sag_der, c, k, rho), np.imag(ctx.call(S.conic_sag, c, k, rc * rc)) / H, 'conic_sag_der:' + kcls,
-            'conic_sag_der vs d/drho conic_sag')
-    elif fn == 'dircos':
-        cmp(ctx.call(S.der_direction_cosine_spheroid, c, k, rho), np.imag(1 / ctx.call(S.phi_spheroid, c, k, rc * rc)) / H,
-            'der_direction_cosine_spheroid:' + kcls, 'der_direction_cosine_spheroid vs d/drho (1/phi_spheroid)')
+    rarg = present(rho, shape, v)
+    targ = present(t, shape, v, layout=v['layout2'], kind='f32' if kind == 'f32' else 'f64')
+    if fn in ('sphere', 'conic', 'dircos'):
+        # other entry point to the same result: the caller hands in the de-duplicated phi (and rho^2), as the Q surfaces do
+        kw = {}
+        if case.get('phi_given', False):
+            ctx.label('phi-given')
+            rf = rarg * rarg
+            kw = {'phi': np.sqrt(1 - (1 + k) * c * c * rf)}
+            if fn == 'dircos':
+                kw['rhosq'] = rf
+        if fn == 'sphere':
+            der, args, bucket, what = S.sphere_sag_der, (c, rarg), 'sphere_sag_der', 'sphere_sag_der vs d/drho sphere_sag'
+            wfull = np.imag(ctx.call(S.sphere_sag, c, rc * rc)) / H
+        elif fn == 'conic':
+            der, args, bucket, what = S.conic_sag_der, (c, k, rarg), 'conic_sag_der:' + kcls, 'conic_sag_der vs d/drho conic_sag'
+            wfull = np.imag(ctx.call(S.conic_sag, c, k, rc * rc)) / H
+        else:
+            der, args, bucket, what = (S.der_direction_cosine_spheroid, (c, k, rarg), 'der_direction_cosine_spheroid:' + kcls,
+                                       'der_direction_cosine_spheroid vs d/drho (1/phi_spheroid)')
+            wfull = np.imag(1 / ctx.call(S.phi_spheroid, c, k, rc * rc)) / H
+        if v['pre32']:
+            call(ctx, 'float32', der, *args[:-1], as32(rarg))
+        got = call(ctx, kcls, der, *args, **kw)
+        cmp(got, wfull, bucket, what)
+        reuse_check(ctx, v, bucket, got, (rarg, kw), lambda: ctx.call(der, *((-0.5 * c,) + args[1:]), **kw), lambda: ctx.call(der, *args, **kw),
+                    lambda g, b: cmp(g, wfull, b, what))
     elif fn in ('off_axis', 'sigma'):
         if fn == 'off_axis':
             der, name = S.off_axis_conic_der, 'off_axis_conic_der'
@@ -608,30 +1086,43 @@ def check_conics(case, ctx):
 
             def val(r_, t_):
                 return 1 / ctx.call(S.off_axis_conic_sigma, c, k, r_, t_, dx, dy)
-        res = ctx.call(der, c, k, rho, t, dx, dy)
-        ctx.require(isinstance(res, tuple) and len(res) == 2, name + ':return', 'expected (dr, dt)')
+        if v['pre32']:
+            call(ctx, 'float32', der, c, k, as32(rarg), as32(targ), dx, dy)
         wr = np.imag(val(rbase + 1j * H, tbase + 0j)) / H
         wt = np.imag(val(rbase + 0j, tbase + 1j * H)) / H
-        # the azimuthal derivative is compared on the scale of r * (radial derivative): it vanishes identically without a shift
-        cmp(res[0], wr, '%s:radial:%s' % (name, kcls), name + ' radial vs complex step')
-        wt_scale = max(float(np.max(np.abs(wt))), 0.0)
-        want = shaped(wt, shape)
-        U.check_shape(res[1], np.shape(want), '%s:azimuthal:%s' % (name, kcls), name + ' azimuthal')
-        U.check_close(res[1], want, RT, '%s:azimuthal:%s' % (name, kcls), name + ' azimuthal vs complex step (c=%r, k=%r, dx=%r, dy=%r)' % (c, k, dx, dy),
-                      atol=RT * wt_scale)
+
+        def verify(res, suffix):
+            ctx.require(isinstance(res, tuple) and len(res) == 2, name + ':return', 'expected (dr, dt)')
+            # the azimuthal derivative is compared on the scale of r * (radial derivative): it vanishes identically without a shift
+            cmp(res[0], wr, '%s:radial:%s%s' % (name, kcls, suffix), name + ' radial vs complex step')
+            wt_scale = max(float(np.max(np.abs(wt))), 0.0)
+            want = shaped(wt, shape)
+            U.check_shape(res[1], np.shape(want), '%s:azimuthal:%s%s' % (name, kcls, suffix), name + ' azimuthal')
+            U.check_close(res[1], want, rt, '%s:azimuthal:%s%s' % (name, kcls, suffix), name + ' azimuthal vs complex step (c=%r, k=%r, dx=%r, dy=%r, rho: %s %s)' % (
+                c, k, dx, dy, kind, shape_label(shape)), atol=rt * wt_scale)
+        res = call(ctx, kcls, der, c, k, rarg, targ, dx, dy)
+        verify(res, '')
+        reuse_check(ctx, v, name, res, (rarg, targ), lambda: ctx.call(der, -0.5 * c, k, rarg, targ, 0.5 * dx, 0.5 * dy),
+                    lambda: ctx.call(der, c, k, rarg, targ, dx, dy), lambda g, b: verify(g, b[len(name):]))
     else:
-        # Surface.conic / Surface.off_axis_conic: FFp(x, y) -> sag, d/dx, d/dy
+        # Surface.conic / .sphere / .off_axis_conic: FFp(x, y) -> sag, d/dx, d/dy
         xb = rbase * np.cos(tbase)
         yb = rbase * np.sin(tbase)
+        if kind in ('int', 'f32'):
+            xb = np.trunc(xb) if kind == 'int' else xb.astype(np.float32).astype(float)
+            yb = np.trunc(yb) if kind == 'int' else yb.astype(np.float32).astype(float)
         size = size_of(shape)
-        if shape == 'pyfloat':
-            shape_ = []
-        else:
-            shape_ = shape
-        x = xb[:size].reshape(shape_).copy()
-        y = yb[:size].reshape(shape_).copy()
+        xs = xb[:size].reshape(shape_tuple(shape)).copy()
+        ys = yb[:size].reshape(shape_tuple(shape)).copy()
+        if isinstance(shape, str):
+            xs, ys = float(xs), float(ys)
+        x = present(xs, shape, v)
+        y = present(ys, shape, v, layout=v['layout2'])
         if fn == 'ffp_conic':
             surf = ctx.call(S.Surface.conic, c, k, 'eval', [0, 0, 0])
+            sx = sy = 0.0
+        elif fn == 'ffp_sphere':
+            surf = ctx.call(S.Surface.sphere, c, 'eval', [0, 0, 0], None)
             sx = sy = 0.0
         else:
             surf = ctx.call(S.Surface.off_axis_conic, c, k, 'eval', [0, 0, 0], dy=dy, dx=dx)
@@ -640,26 +1131,34 @@ def check_conics(case, ctx):
         def sag(xx, yy):
             A = (xx + sx) ** 2 + (yy + sy) ** 2
             return c * A / (1 + np.sqrt(1 - (1 + k) * c * c * A))
-        res = ctx.call(surf.FFp, x, y)
-        ctx.require(len(res) == 3, fn + ':return', 'expected (z, dx, dy)')
+        if v['pre32']:
+            call(ctx, 'float32', surf.FFp, as32(x), as32(y))
         wx = np.imag(sag(xb + 1j * H, yb + 0j)) / H
         wy = np.imag(sag(xb + 0j, yb + 1j * H)) / H
         sc = max(float(np.max(np.abs(wx))), float(np.max(np.abs(wy))))
-        for got, wfull, which in ((res[1], wx, 'd/dx'), (res[2], wy, 'd/dy')):
-            want = shaped(wfull, shape_)
-            bucket = 'Surface.%s.FFp:%s' % (fn[4:], kcls)
-            U.check_shape(got, np.shape(want), bucket, which)
-            U.check_close(got, want, 1e-8, bucket, 'Surface.%s(c=%r, k=%r, dx=%r, dy=%r).FFp %s vs complex step of the closed-form sag' % (
-                fn[4:], c, k, sx, sy, which), atol=1e-8 * sc)
+        bucket = 'Surface.%s.FFp:%s' % (fn[4:], kcls)
+
+        def verify(res, bucket):
+            ctx.require(len(res) == 3, fn + ':return', 'expected (z, dx, dy)')
+            for got, wfull, which in ((res[1], wx, 'd/dx'), (res[2], wy, 'd/dy')):
+                want = shaped(wfull, shape)
+                U.check_shape(got, np.shape(want), bucket, which)
+                U.check_close(got, want, rt8, bucket, 'Surface.%s(c=%r, k=%r, dx=%r, dy=%r).FFp(x: %s %s) %s vs complex step of the closed-form sag' % (
+                    fn[4:], c, k, sx, sy, kind, shape_label(shape), which), atol=rt8 * sc)
+        res = call(ctx, kcls, surf.FFp, x, y)
+        verify(res, bucket)
+        # the same surface object evaluated again at other points, then at the first points
+        reuse_check(ctx, v, bucket, res, (x, y), lambda: ctx.call(surf.FFp, y, x), lambda: ctx.call(surf.FFp, x, y), verify)
 
 
 def strat_q2d_surface(tier):
     return st.fixed_dictionaries({
         'coefs': q2d_coefs(tier),
         'c': st.tuples(U.nice_float(0.01, 0.5), st.sampled_from([1, -1])).map(lambda t: t[0] * t[1]),
-        'k': st.one_of(st.sampled_from([0, 0, -1, 1, 0.5]), U.nice_float(-3.0, 2.0)),
+        'k': conic_k(), 'qmax': st.sampled_from(QMAX),
         'fs': U.nice_float(0.05, 0.6), 'axis': st.sampled_from(['dx', 'dy', 'none', 'none', '-dx', '-dy']), 'fr': U.nice_float(0.3, 0.95),
-        'fn': st.just('q2d'), 'shape': array_shapes(4).filter(lambda s: len(s) != 1), 'seed': U.seeds})   # 1-D x, y mean a grid (cart_to_polar)
+        'fn': st.just('q2d'), 'shape': point_shapes(4).filter(lambda s: isinstance(s, str) or len(s) != 1), 'seed': U.seeds,   # 1-D x, y mean a grid (cart_to_polar)
+        'v': variants(('f64', 'f32', 'int'))})
 
 
 def check_q2d_surface(case, ctx):
@@ -667,18 +1166,44 @@ def check_q2d_surface(case, ctx):
     from prysm.polynomials import Q2d
     from prysm.x.raytracing import surfaces as S
     shape = case['shape']
-    c, k, dx, dy, rmax = conic_geometry(case)
-    cm0, ams, bms = q2d_expand(case)
+    v = var_of(case, ('f64', 'f32', 'int'))
+    if v['itype'] in ('int8', 'int16'):
+        v['itype'] = 'int32'     # numpy takes sqrt / arctan2 of 8- and 16-bit integers in half / single precision
+    kind = v['xkind']
+    c, k, dx, dy, rmax = conic_geometry(case, v)
+    cm0, ams, bms = q2d_expand(case, v['cs_as'])
+    cargs = q2d_contain(cm0, ams, bms, v['cs_as'])
     cls = q2d_labels(ctx, case)
     kcls = 'k=0' if k == 0 else 'k!=0'
-    ctx.label(kcls, shape_label(shape), 'shift:' + ('none' if dx == dy == 0 else 'x' if dx else 'y'))
+    ctx.label(kcls, shape_label(shape), 'shift:' + ('none' if dx == dy == 0 else 'x' if dx else 'y'), 'cs-as:' + v['cs_as'])
+    var_labels(ctx, v, shape)
     ctx.nt(True)
     R = rmax
     _, rbase = make_points(case['seed'], shape, 0.05 * rmax, rmax, False, salt=1)
     _, tbase = make_points(case['seed'], shape, -0.98 * math.pi, 0.98 * math.pi, False, salt=2)   # arctan2 range
+    xb, yb = rbase * np.cos(tbase), rbase * np.sin(tbase)
+    if kind == 'int':
+        # integer-valued Cartesian points (possibly the vertex itself when the aperture is small) inside the same disk; the polar
+        # coordinates of the oracle are recomputed from them
+        xb, yb = np.trunc(xb), np.trunc(yb)
+        keep = (xb != 0) | (yb != 0)
+        if not keep.all():
+            ctx.label('int:some-points-at-vertex')
+            xb = np.where(keep, xb, 1.0 if rmax >= 1 else 0.0)
+        if not ((xb != 0) | (yb != 0)).all():
+            v['xkind'] = kind = 'f64'       # aperture smaller than one unit: no integer point but the vertex, where theta is not defined
+            xb, yb = rbase * np.cos(tbase), rbase * np.sin(tbase)
+    if kind == 'f32':
+        xb, yb = xb.astype(np.float32).astype(float), yb.astype(np.float32).astype(float)
+    if kind != 'f64':
+        rbase, tbase = np.hypot(xb, yb), np.arctan2(yb, xb)
     size = size_of(shape)
-    x = (rbase * np.cos(tbase))[:size].reshape(shape).copy()
-    y = (rbase * np.sin(tbase))[:size].reshape(shape).copy()
+    xs = xb[:size].reshape(shape_tuple(shape)).copy()
+    ys = yb[:size].reshape(shape_tuple(shape)).copy()
+    if isinstance(shape, str):
+        xs, ys = float(xs), float(ys)
+    x = present(xs, shape, v)
+    y = present(ys, shape, v, layout=v['layout2'])
     modes = q2d_modes(cm0, ams, bms)
 
     def sag(r_, t_):
@@ -687,6 +1212,8 @@ def check_q2d_surface(case, ctx):
             q = sum(cc * ctx.call(Q2d, n, m, r_ / R, t_) for n, m, cc in modes)
             z = z + q / ctx.call(S.off_axis_conic_sigma, c, k, r_, t_, dx, dy)
         return z
+    if v['pre32']:
+        call(ctx, cls + ':float32', S.Q2d_and_der, *cargs, as32(x), as32(y), R, c, k, dx, dy)
     wr = np.imag(sag(rbase + 1j * H, tbase + 0j)) / H
     wt = np.imag(sag(rbase + 0j, tbase + 1j * H)) / H
     # term-wise scale: |conic slope| + sum |c| |d mode| / sigma
@@ -696,14 +1223,25 @@ def check_q2d_surface(case, ctx):
     for n, m, cc in modes:
         sr += float(np.max(np.abs(cc * np.imag(Q2d(n, m, (rbase + 1j * H) / R, tbase + 0j)) / H * sig)))
         st_ += float(np.max(np.abs(cc * np.imag(Q2d(n, m, rbase / R + 0j, tbase + 1j * H)) / H * sig)))
-    res = call(ctx, cls, S.Q2d_and_der, cm0, ams, bms, x, y, R, c, k, dx, dy)
-    ctx.require(isinstance(res, tuple) and len(res) == 3, 'Q2d_and_der:return', 'expected (z, dr, dt)')
-    for got, wfull, sc, which in ((res[1], wr, sr, 'radial'), (res[2], wt, st_, 'azimuthal')):
-        want = shaped(wfull, shape)
-        bucket = 'Q2d_and_der:%s:%s%s' % (which, kcls, ':one-family-empty' if cls == 'one-family-empty' else '')
-        U.check_shape(got, np.shape(want), bucket, which)
-        U.check_close(got, want, 1e-8, bucket, 'Q2d_and_der(cm0=%s, ams=%s, bms=%s, R=%r, c=%r, k=%r, dx=%r, dy=%r): %s slope vs complex step' % (
-            cm0, ams, bms, R, c, k, dx, dy, which), atol=1e-8 * sc)
+    # the azimuthal slope is r times a tangential gradient: its rounding noise is on the scale of r * (radial slope) even where it
+    # vanishes itself (integer points on the axis of the shift, theta = 0 or pi exactly)
+    st_ = max(st_, float(np.max(rbase)) * sr)
+    rt = rtol_of(v, 12, 1e-8)
+    isuf = ':integer-coefficient-array' if v['cs_as'] == 'intarray' else ''
+
+    def verify(res, suffix):
+        ctx.require(isinstance(res, tuple) and len(res) == 3, 'Q2d_and_der:return', 'expected (z, dr, dt)')
+        for got, wfull, sc, which in ((res[1], wr, sr, 'radial'), (res[2], wt, st_, 'azimuthal')):
+            want = shaped(wfull, shape)
+            bucket = 'Q2d_and_der:%s:%s%s%s%s' % (which, kcls, ':one-family-empty' if cls == 'one-family-empty' else '', isuf, suffix)
+            U.check_shape(got, np.shape(want), bucket, which)
+            U.check_close(got, want, rt, bucket, 'Q2d_and_der(cm0=%s, ams=%s, bms=%s, R=%r, c=%r, k=%r, dx=%r, dy=%r, x: %s %s): %s slope vs complex step' % (
+                cm0, ams, bms, R, c, k, dx, dy, kind, shape_label(shape), which), atol=rt * sc)
+    res = call(ctx, cls, S.Q2d_and_der, *cargs, x, y, R, c, k, dx, dy)
+    verify(res, '')
+    other = [[0.5] + [1.0 - cc for cc in cm0], [[0.25, -0.5, 1.0]] + [list(a) for a in ams], [[1.0]] + [list(b) for b in bms]]
+    reuse_check(ctx, v, 'Q2d_and_der', res, (x, y, cargs), lambda: ctx.call(S.Q2d_and_der, *other, x, y, R, -0.5 * c, k, dx, dy),
+                lambda: ctx.call(S.Q2d_and_der, *cargs, x, y, R, c, k, dx, dy), lambda g, b: verify(g, b[len('Q2d_and_der'):]))
 
 
 CLAUSES = [
